@@ -334,6 +334,12 @@ void reb_simulation_remove_all_particles(struct reb_simulation* const r){
 }
 
 int reb_simulation_remove_particle(struct reb_simulation* const r, int index, int keep_sorted){
+	if (index >= (int)r->N || index < 0){
+		char warning[1024];
+        sprintf(warning, "Index %d passed to particles_remove was out of range (N=%d).  Did not remove particle.", index, r->N);
+		reb_simulation_error(r, warning);
+		return 0;
+	}
     if (r->integrator == REB_INTEGRATOR_MERCURIUS){
         keep_sorted = 1; // Force keep_sorted for hybrid integrator
         struct reb_integrator_mercurius* rim = &(r->ri_mercurius);
@@ -407,12 +413,6 @@ int reb_simulation_remove_particle(struct reb_simulation* const r, int index, in
         }
 		reb_simulation_warning(r, "Last particle removed.");
 		return 1;
-	}
-	if (index >= (int)r->N || index < 0){
-		char warning[1024];
-        sprintf(warning, "Index %d passed to particles_remove was out of range (N=%d).  Did not remove particle.", index, r->N);
-		reb_simulation_error(r, warning);
-		return 0;
 	}
 	if (r->N_var){
 		reb_simulation_error(r, "Removing particles not supported when calculating MEGNO.  Did not remove particle.");
